@@ -503,34 +503,12 @@ def _constraint_association_gain(
     counters[:] = 0
     for i in labels:
         counters[i] += 1
-    leftclose[:] = counters[:] - ave
-    leftclose[leftclose < 0] = 0
+    # The nover = n - ave * k points in excess go to nover distinct clusters,
+    # the biggest ones first: leftclose[c] is 1 if cluster c is allowed
+    # ave + 1 points, 0 if it is allowed ave points.
     nover = X.shape[0] - ave * counters.shape[0]
-    sumi = nover - leftclose.sum()
-    if sumi != 0:
-        if state is None:
-            state = numpy.random.RandomState()
-
-        def loopf(h, sumi):
-            if sumi < 0 and leftclose[h] > 0:
-                sumi -= leftclose[h]
-                leftclose[h] = 0
-            elif sumi > 0 and leftclose[h] == 0:
-                leftclose[h] = 1
-                sumi += 1
-            return sumi
-
-        it = 0
-        while sumi != 0:
-            h = state.randint(0, counters.shape[0])
-            sumi = loopf(h, sumi)
-            it += 1
-            if it > counters.shape[0] * 2:
-                break
-        for h in range(counters.shape[0]):
-            if sumi == 0:
-                break
-            sumi = loopf(h, sumi)
+    leftclose[:] = 0
+    leftclose[numpy.argsort(-counters, kind="stable")[:nover]] = 1
 
     transfer = {}
 
